@@ -9,7 +9,6 @@ import (
 	"os"
 	"path/filepath"
 	"sort"
-	"strings"
 	"testing"
 
 	"pgregory.net/rapid"
@@ -160,17 +159,32 @@ func codeSelfContained(code string) bool {
 			}
 			i += j + 2
 		case b[i] == '\'':
-			j := i + 1
-			for j < len(b) && b[j] != '\'' {
-				if b[j] == '\\' && j+1 < len(b) && (b[j+1] == '\'' || b[j+1] == '\\') {
-					j++
-				}
-				j++
-			}
-			if j >= len(b) {
+			// exactly the front-end's rule:  ' ( \' / \\ / [^']+ ) '   - one group, ordered
+			// choice without retry; where the literal does not match, the quote is a plain
+			// character. When whether it matches depends on text behind the block, the block
+			// is not self-contained.
+			rest := b[i+1:]
+			switch {
+			case len(rest) < 2:
 				return false
+			case rest[0] == '\\' && (rest[1] == '\'' || rest[1] == '\\'):
+				if len(rest) < 3 {
+					return false
+				}
+				if rest[2] == '\'' {
+					i += 4
+				} else {
+					i++
+				}
+			case rest[0] == '\'':
+				i++ // '' is no literal
+			default:
+				j := bytes.IndexByte(rest, '\'')
+				if j < 0 {
+					return false // the literal would go on behind the block
+				}
+				i += 1 + j + 1
 			}
-			i = j + 1
 		default:
 			i++
 		}
@@ -374,8 +388,8 @@ func FuzzFrontRoundTrip(f *testing.F) {
 		}
 	}
 	f.Fuzz(func(t *testing.T, text []byte) {
-		if len(text) > 4000 || strings.Count(string(text), "(") > 200 {
-			t.Skip()
+		if len(text) > 4000 || maxParenDepth(text) > 10 {
+			t.Skip() // (deep nesting without -cache: documented exponential time, see maxParenDepth)
 		}
 		k, d, skip := checkPrintRoundTrip(text)
 		if skip {
